@@ -432,4 +432,199 @@ pub(crate) mod verif_opmod {
     //@ob name=C04.data_operation_evaluate.2 harness=k_c04_dopeval_2 props=C04,C01 tier=off strength=bounded bound="2 operands, both succeed" fns=op::DataOperation::evaluate stubs=3 timeout=300 cutdrop=1 group=medium
     //@ desc="DataOperation::evaluate: operands evaluated once each, in order; the data operator receives the data and the values"
     opeval_harness!(k_c04_dopeval_2, 2, 3, true);
+
+    // =====================================================================================
+    // Table bindings (C05, C06, C07, C08, C09, C10, C13-C16): each operator name is bound to the function
+    // that implements it. The callee is replaced by a contract stub that records its arguments and
+    // returns a planned / sentinel result; the harness runs `TABLE.get(name).execute(..)` on the REAL
+    // compiled table and closure.
+    // =====================================================================================
+    pub(crate) static mut B_CALLS: u32 = 0;
+    pub(crate) static mut B_ARG: [*const Value; 2] = [std::ptr::null(); 2];
+    pub(crate) static mut B_BOOL: bool = false;
+    pub(crate) static mut B_F64: f64 = 0.0;
+    pub(crate) static mut B_OK: bool = true;
+    fn rec2(a: &Value, b: &Value) {
+        unsafe {
+            B_CALLS += 1;
+            B_ARG[0] = a as *const Value;
+            B_ARG[1] = b as *const Value;
+        }
+    }
+    pub(crate) fn bool2_stub(a: &Value, b: &Value) -> bool {
+        rec2(a, b);
+        unsafe { B_BOOL }
+    }
+    pub(crate) fn bool1_stub(a: &Value) -> bool {
+        unsafe {
+            B_CALLS += 1;
+            B_ARG[0] = a as *const Value;
+            B_BOOL
+        }
+    }
+    pub(crate) fn f64_2_stub(a: &Value, b: &Value) -> Result<f64, Error> {
+        rec2(a, b);
+        if unsafe { B_OK } { Ok(unsafe { B_F64 }) } else { Err(Error::UnexpectedError(String::new())) }
+    }
+    pub(crate) fn f64_1_stub(a: &Value) -> Result<f64, Error> {
+        unsafe {
+            B_CALLS += 1;
+            B_ARG[0] = a as *const Value;
+        }
+        if unsafe { B_OK } { Ok(unsafe { B_F64 }) } else { Err(Error::UnexpectedError(String::new())) }
+    }
+    pub(crate) static mut B_VEC: *const Vec<&'static Value> = std::ptr::null();
+    pub(crate) fn f64_vec_stub(items: &Vec<&Value>) -> Result<f64, Error> {
+        unsafe {
+            B_CALLS += 1;
+            B_VEC = items as *const Vec<&Value> as *const Vec<&'static Value>;
+        }
+        if unsafe { B_OK } { Ok(unsafe { B_F64 }) } else { Err(Error::UnexpectedError(String::new())) }
+    }
+    fn two_items() -> (MD<Value>, MD<Value>) {
+        (MD::new(Value::Null), MD::new(Value::Bool(true)))
+    }
+
+    /// which: 0 "==" 1 "!=" 2 "===" 3 "!==" 4 "<" 5 "<=" 6 ">" 7 ">="
+    pub(crate) fn body_bind_bool2(name: &str) {
+        let (x, y) = two_items();
+        let b: bool = kani::any();
+        unsafe { B_BOOL = b };
+        let mut items: Vec<&Value> = Vec::with_capacity(2);
+        items.push(&*x);
+        items.push(&*y);
+        let items = MD::new(items);
+        let r = MD::new(OPERATOR_MAP.get(name).unwrap().execute(&items));
+        kani::cover!(true, "returned");
+        assert!(matches!(&*r, Ok(Value::Bool(v)) if *v == b), "table binding: the operator must return exactly the boolean its js_op function computes");
+        assert!(unsafe { B_CALLS } == 1 && unsafe { B_ARG[0] } == &*x as *const Value && unsafe { B_ARG[1] } == &*y as *const Value,
+            "table binding: the operator must call its own js_op function once, with the operands in order");
+    }
+    macro_rules! bind_bool2 {
+        ($h:ident, $name:expr, $target:path) => {
+            #[cfg_attr(kani, kani::proof)]
+            #[cfg_attr(kani, kani::stub($target, bool2_stub))]
+            #[cfg_attr(kani, kani::stub(std::fmt::format, crate::verif_support::fmt_stub))]
+            pub(crate) fn $h() {
+                body_bind_bool2($name);
+            }
+        };
+    }
+    //@ob name=C07.bind.eq harness=k_bind_eq props=C07 strength=complete fns=op::OPERATOR_MAP stubs=2 timeout=300
+    //@ desc="`==` (two operands) returns Bool(js_op::abstract_eq(a, b)): the table entry is bound to abstract equality, operands in order"
+    bind_bool2!(k_bind_eq, "==", crate::js_op::abstract_eq);
+    //@ob name=C07.bind.ne harness=k_bind_ne props=C07 strength=complete fns=op::OPERATOR_MAP stubs=2 timeout=300
+    //@ desc="`!=` returns Bool(js_op::abstract_ne(a, b))"
+    bind_bool2!(k_bind_ne, "!=", crate::js_op::abstract_ne);
+    //@ob name=C08.bind.seq harness=k_bind_seq props=C08 strength=complete fns=op::OPERATOR_MAP stubs=2 timeout=300
+    //@ desc="`===` returns Bool(js_op::strict_eq(a, b))"
+    bind_bool2!(k_bind_seq, "===", crate::js_op::strict_eq);
+    //@ob name=C08.bind.sne harness=k_bind_sne props=C08 strength=complete fns=op::OPERATOR_MAP stubs=2 timeout=300
+    //@ desc="`!==` returns Bool(js_op::strict_ne(a, b))"
+    bind_bool2!(k_bind_sne, "!==", crate::js_op::strict_ne);
+    //@ob name=C09.bind.lt harness=k_bind_lt props=C09 strength=complete fns=op::OPERATOR_MAP,op::numeric::lt stubs=2 timeout=300
+    //@ desc="`<` on two operands returns Bool(js_op::abstract_lt(a, b))"
+    bind_bool2!(k_bind_lt, "<", crate::js_op::abstract_lt);
+    //@ob name=C09.bind.lte harness=k_bind_lte props=C09 strength=complete fns=op::OPERATOR_MAP,op::numeric::lte stubs=2 timeout=300
+    //@ desc="`<=` on two operands returns Bool(js_op::abstract_lte(a, b))"
+    bind_bool2!(k_bind_lte, "<=", crate::js_op::abstract_lte);
+    //@ob name=C09.bind.gt harness=k_bind_gt props=C09 strength=complete fns=op::OPERATOR_MAP,op::numeric::gt stubs=2 timeout=300
+    //@ desc="`>` on two operands returns Bool(js_op::abstract_gt(a, b))"
+    bind_bool2!(k_bind_gt, ">", crate::js_op::abstract_gt);
+    //@ob name=C09.bind.gte harness=k_bind_gte props=C09 strength=complete fns=op::OPERATOR_MAP,op::numeric::gte stubs=2 timeout=300
+    //@ desc="`>=` on two operands returns Bool(js_op::abstract_gte(a, b))"
+    bind_bool2!(k_bind_gte, ">=", crate::js_op::abstract_gte);
+
+    pub(crate) fn body_bind_truthy(name: &str, negate: bool) {
+        let x = MD::new(Value::Null);
+        let b: bool = kani::any();
+        unsafe { B_BOOL = b };
+        let mut items: Vec<&Value> = Vec::with_capacity(1);
+        items.push(&*x);
+        let items = MD::new(items);
+        let r = MD::new(OPERATOR_MAP.get(name).unwrap().execute(&items));
+        kani::cover!(true, "returned");
+        assert!(matches!(&*r, Ok(Value::Bool(v)) if *v == (b != negate)), "`!!` is the boolean of the truthiness table and `!` its exact negation");
+        assert!(unsafe { B_CALLS } == 1 && unsafe { B_ARG[0] } == &*x as *const Value, "`!` / `!!` decide by logic::truthy of their operand");
+    }
+    //@ob name=C06.bind.not props=C06 strength=complete fns=op::OPERATOR_MAP stubs=2 timeout=300
+    //@ desc="`!` returns Bool(!truthy(x)) - decided by the shared truthiness function (by contract: an arbitrary boolean)"
+    #[cfg_attr(kani, kani::proof)]
+    #[cfg_attr(kani, kani::stub(crate::op::logic::truthy, bool1_stub))]
+    #[cfg_attr(kani, kani::stub(std::fmt::format, crate::verif_support::fmt_stub))]
+    pub(crate) fn k_bind_not() {
+        body_bind_truthy("!", true);
+    }
+    //@ob name=C06.bind.notnot props=C06 strength=complete fns=op::OPERATOR_MAP stubs=2 timeout=300
+    //@ desc="`!!` returns Bool(truthy(x))"
+    #[cfg_attr(kani, kani::proof)]
+    #[cfg_attr(kani, kani::stub(crate::op::logic::truthy, bool1_stub))]
+    #[cfg_attr(kani, kani::stub(std::fmt::format, crate::verif_support::fmt_stub))]
+    pub(crate) fn k_bind_notnot() {
+        body_bind_truthy("!!", false);
+    }
+
+    /// arithmetic operators: result = to_number_value(what the js_op helper returned); helper error => error
+    pub(crate) fn body_bind_arith(name: &str, arity: usize, vec_callee: bool) {
+        let (x, y) = two_items();
+        let v: f64 = kani::any();
+        let ok: bool = kani::any();
+        unsafe {
+            B_F64 = v;
+            B_OK = ok;
+        }
+        let mut items: Vec<&Value> = Vec::with_capacity(2);
+        items.push(&*x);
+        if arity == 2 {
+            items.push(&*y);
+        }
+        let items = MD::new(items);
+        let r = MD::new(OPERATOR_MAP.get(name).unwrap().execute(&items));
+        kani::cover!(true, "returned");
+        assert!(unsafe { B_CALLS } == 1, "arithmetic operator must call its js_op helper exactly once");
+        if vec_callee {
+            assert!(unsafe { B_VEC } == &*items as *const Vec<&Value> as *const Vec<&'static Value>, "the fold helper receives the operand list itself");
+        } else {
+            assert!(unsafe { B_ARG[0] } == &*x as *const Value && (arity == 1 || unsafe { B_ARG[1] } == &*y as *const Value), "operands are passed in order");
+        }
+        if !ok {
+            assert!(r.is_err(), "a non-numeric operand is an error, never a number");
+        } else {
+            assert!(crate::value::verif_value::post_to_number_value(v, &r), "the result is the JSON number for the helper's double (error iff not finite)");
+        }
+    }
+    macro_rules! bind_arith {
+        ($h:ident, $name:expr, $arity:expr, $vec:expr, $target:path, $stub:path) => {
+            #[cfg_attr(kani, kani::proof)]
+            #[cfg_attr(kani, kani::stub($target, $stub))]
+            #[cfg_attr(kani, kani::stub(std::fmt::format, crate::verif_support::fmt_stub))]
+            pub(crate) fn $h() {
+                body_bind_arith($name, $arity, $vec);
+            }
+        };
+    }
+    //@ob name=C10.bind.plus harness=k_bind_plus props=C10 strength=complete fns=op::OPERATOR_MAP stubs=2 timeout=300
+    //@ desc="`+` = to_number_value(js_op::parse_float_add(operands)) for every double the fold can return; fold error => error"
+    bind_arith!(k_bind_plus, "+", 2, true, crate::js_op::parse_float_add, f64_vec_stub);
+    //@ob name=C10.bind.mul harness=k_bind_mul props=C10 strength=complete fns=op::OPERATOR_MAP stubs=2 timeout=300
+    //@ desc="`*` = to_number_value(js_op::parse_float_mul(operands))"
+    bind_arith!(k_bind_mul, "*", 2, true, crate::js_op::parse_float_mul, f64_vec_stub);
+    //@ob name=C10.bind.max harness=k_bind_max props=C10 strength=complete fns=op::OPERATOR_MAP stubs=2 timeout=300
+    //@ desc="`max` = to_number_value(js_op::abstract_max(operands))"
+    bind_arith!(k_bind_max, "max", 2, true, crate::js_op::abstract_max, f64_vec_stub);
+    //@ob name=C10.bind.min harness=k_bind_min props=C10 strength=complete fns=op::OPERATOR_MAP stubs=2 timeout=300
+    //@ desc="`min` = to_number_value(js_op::abstract_min(operands))"
+    bind_arith!(k_bind_min, "min", 2, true, crate::js_op::abstract_min, f64_vec_stub);
+    //@ob name=C10.bind.div harness=k_bind_div props=C10 strength=complete fns=op::OPERATOR_MAP stubs=2 timeout=300
+    //@ desc="`/` = to_number_value(js_op::abstract_div(a, b)), operands in order"
+    bind_arith!(k_bind_div, "/", 2, false, crate::js_op::abstract_div, f64_2_stub);
+    //@ob name=C10.bind.mod harness=k_bind_mod props=C10 strength=complete fns=op::OPERATOR_MAP stubs=2 timeout=300
+    //@ desc="`%` = to_number_value(js_op::abstract_mod(a, b)), operands in order"
+    bind_arith!(k_bind_mod, "%", 2, false, crate::js_op::abstract_mod, f64_2_stub);
+    //@ob name=C10.bind.minus2 harness=k_bind_minus2 props=C10 strength=complete fns=op::OPERATOR_MAP,op::numeric::minus stubs=2 timeout=300
+    //@ desc="`-` with two operands = to_number_value(js_op::abstract_minus(a, b))"
+    bind_arith!(k_bind_minus2, "-", 2, false, crate::js_op::abstract_minus, f64_2_stub);
+    //@ob name=C10.bind.minus1 harness=k_bind_minus1 props=C10 strength=complete fns=op::OPERATOR_MAP,op::numeric::minus stubs=2 timeout=300
+    //@ desc="`-` with one operand = to_number_value(js_op::to_negative(a))"
+    bind_arith!(k_bind_minus1, "-", 1, false, crate::js_op::to_negative, f64_1_stub);
 }
